@@ -72,6 +72,12 @@ def main():
             if status in ("MISSED", "FALSE-ALARM", "STALE"):
                 bad += 1
     json.dump(results, open(os.path.join(VERIF, "selftest", "last_results.json"), "w"), indent=1)
+    if not prop and not name:
+        # every non-trusted contract must be verified by some check
+        a = subprocess.run([sys.executable, os.path.join(VERIF, "tools", "audit_contracts.py")], capture_output=True, text=True)
+        print(a.stdout.strip())
+        if a.returncode != 0:
+            bad += 1
     print("%d mutants, %d problems" % (len(ms), bad))
     sys.exit(1 if bad else 0)
 
